@@ -104,6 +104,23 @@ Definition outcome_eqb (a b : outcome) : bool :=
   | ORaise e, ORaise e' => exn_eqb e e'
   | _, _ => false
   end.
+(* a comparer transform as recorded: the (input, output) pairs observed during the run; identity elsewhere *)
+Definition c_eqb (z w : C) : bool := Qeq_bool (fst z) (fst w) && Qeq_bool (snd z) (snd w).
+Fixpoint cv_eqb (a b : cvec) : bool :=
+  match a, b with [], [] => true | x :: a', y :: b' => c_eqb x y && cv_eqb a' b' | _, _ => false end.
+Fixpoint cm_eqb (a b : list cvec) : bool :=
+  match a, b with [], [] => true | x :: a', y :: b' => cv_eqb x y && cm_eqb a' b' | _, _ => false end.
+Definition value_eqb (a b : value) : bool :=
+  match a, b with
+  | VNum (NReal x), VNum (NReal y) => Qeq_bool x y
+  | VNum (NCplx x x'), VNum (NCplx y y') => Qeq_bool x y && Qeq_bool x' y'
+  | VVec x, VVec y => cv_eqb x y
+  | VMat x, VMat y => cm_eqb x y
+  | _, _ => false
+  end.
+Definition tr_of (l : list (value * value)) (v : value) : value :=
+  match find (fun p => value_eqb (fst p) v) l with Some p => snd p | None => v end.
+
 Definition tol_scale (f : Q) (tl : tol) : tol :=
   match tl with TAbs t => TAbs (t * f) | TPct p => TPct (p * f) end.
 
@@ -187,9 +204,11 @@ def c_term(z):
     return '(%s, %s)' % (qlit(z.real), qlit(z.imag))
 
 
-def value_term(v):
+def value_term(v, np_complex_ok=False):
     import numpy as np
     if isinstance(v, np.ndarray):
+        if v.ndim == 0:
+            return value_term(v.item(), np_complex_ok)
         if v.ndim == 1:
             return '(VVec %s)' % listlit([c_term(z) for z in v.tolist()])
         if v.ndim == 2:
@@ -202,6 +221,8 @@ def value_term(v):
             raise Unrepresentable('non-finite')
         return '(VNum (NCplx %s %s))' % (qlit(v.real), qlit(v.imag))
     if isinstance(v, np.complexfloating):
+        if np_complex_ok and is_finite_c(v):
+            return '(VNum (NCplx %s %s))' % (qlit(float(v.real)), qlit(float(v.imag)))
         raise Unrepresentable('numpy complex scalar (ordering semantics differ from Python complex)')
     if isinstance(v, (int, float, np.floating, np.integer)):
         if not math.isfinite(float(v)):
@@ -231,17 +252,34 @@ class Run(object):
     def __init__(self):
         self.calls = []          # comparer calls: dict(params, student, ret | exc)
         self.lstsq = []          # (a, b, residuals, rank)
+        self.transforms = []     # (input, output) of the comparer's configured transform
         self.status = None       # 'ret' | 'exc' | 'timeout'
         self.out = None
 
 
-def comparer_terms(cmp):
+TRANSFORMS = ('abs', 'conj', 'double', 'norm', 'trace', 'sum', 'first', 'transpose')
+
+
+def transform_function(name):
+    import numpy as np
+    return {'abs': np.abs, 'conj': np.conj, 'double': lambda x: 2 * x, 'norm': np.linalg.norm, 'trace': np.trace,
+            'sum': np.sum, 'first': lambda x: x[0], 'transpose': np.transpose}[name]
+
+
+def transform_term(run):
+    pairs = []
+    for a, b in (run.transforms if run is not None else []):
+        pairs.append('(%s, %s)' % (value_term(a, True), value_term(b, True)))
+    return '(tr_of %s)' % listlit(pairs) if pairs else '(fun v => v)'
+
+
+def comparer_terms(cmp, run=None):
     name, cfg = cmp['name'], cmp.get('cfg', {})
     if name == 'equality':
-        return 'CmpEquality'
+        return '(CmpEquality %s)' % transform_term(run)
     if name == 'entry':
         pc = cfg.get('entry_partial_credit', 0)
-        return '(CmpEntry %s)' % ('PCProp' if pc == 'proportional' else '(PCFlat %s)' % qlit(pc))
+        return '(CmpEntry %s %s)' % ('PCProp' if pc == 'proportional' else '(PCFlat %s)' % qlit(pc), transform_term(run))
     if name == 'linear':
         full = {'equals': 1.0, 'proportional': 0.5, 'offset': None, 'linear': None}
         full.update(cfg)
@@ -286,6 +324,14 @@ def build_grader(spec, run):
             def __call__(self, params, student, utils):
                 return record(lambda p, s, u: base.__call__(self, p, s, u))(params, student, utils)
         Recording.__name__ = base.__name__
+        if cfg.get('transform'):
+            fn = transform_function(cfg['transform'])
+
+            def recorded_transform(x, fn=fn):
+                y = fn(x)
+                run.transforms.append((x, y))
+                return y
+            cfg['transform'] = recorded_transform
         comparer = Recording(**cfg)
 
     config = {'answers': {'expect': {'comparer': comparer, 'comparer_params': list(spec['params'])},
@@ -307,12 +353,23 @@ def build_grader(spec, run):
     if kind != 'Numerical':
         config['samples'] = spec.get('samples', 2)
         config['failable_evals'] = spec.get('failable', 0)
+    route = spec.get('route', 'explicit')
+    if route != 'explicit':
+        # the comparer is the grader's default comparer: the answer is a plain string
+        config['answers'] = {'expect': spec['params'][0], 'grade_decimal': spec.get('ag', 1)}
     if kind == 'Matrix':
         pol = spec.get('policy') or {}
-        config['max_array_dim'] = 2
+        config['max_array_dim'] = spec.get('max_array_dim', 2)
         config['suppress_matrix_messages'] = bool(pol.get('suppress', False))
         config['answer_shape_mismatch'] = {'is_raised': bool(pol.get('is_raised', True)),
                                            'msg_detail': pol.get('msg_detail', 'type')}
+        if route == 'class_default':
+            MatrixGrader.set_default_comparer(comparer)          # undone in execute()
+            return MatrixGrader(**config)
+        if route == 'subclass':
+            class AuthorGrader(MatrixGrader):
+                default_comparer = staticmethod(comparer)
+            return AuthorGrader(**config)
         return MatrixGrader(**config)
     if kind == 'Numerical':
         return NumericalGrader(**config)
@@ -339,8 +396,14 @@ def execute(spec):
             return grader(None, spec['student'])
         finally:
             np.linalg.lstsq = orig
+            if spec.get('route') == 'class_default':
+                from mitxgraders import MatrixGrader
+                MatrixGrader.reset_default_comparer()
     run.status, run.out = core.guarded(go)
     np.linalg.lstsq = orig
+    if spec.get('route') == 'class_default':
+        from mitxgraders import MatrixGrader
+        MatrixGrader.reset_default_comparer()
     return run
 
 
@@ -481,7 +544,7 @@ def case_term(spec, run):
         g = 'GFormula'
     failable = spec.get('failable', 0) if kind != 'Numerical' else 0
     return '(mkCase %s %s %s %s %s %s %s %s %s)' % (
-        g, tol_term(spec['tolerance']), comparer_terms(spec['cmp']), qlit(spec.get('ag', 1)), natlit(failable),
+        g, tol_term(spec['tolerance']), comparer_terms(spec['cmp'], run), qlit(spec.get('ag', 1)), natlit(failable),
         listlit(samples), boollit(spec.get('exact', False)), listlit(lterms), obs)
 
 
@@ -1002,6 +1065,66 @@ def gen_equality(rng, n):
     return out
 
 
+def transform_shape_stream(rng, per_combo=1):
+    """Every way an author can configure the shape-validating comparers that take a transform (EqualityComparer and
+    MatrixEntryComparer: transform None / shape-preserving / shape-collapsing / shape-changing; given explicitly, as the
+    class default via set_default_comparer, or as the default_comparer of a MatrixGrader subclass) x mismatch policies x
+    wrong shapes of each kind.  A wrong shape must be reported per policy whatever the transform; right shapes are
+    compared through the transform."""
+    out = []
+    answers = [
+        # (answer, wrong shapes by kind, right-shape member / non-member per transform family)
+        ('[3, 0, 4]', {'scalar': '5', 'shorter': '[3, 4]', 'longer': '[3, 0, 4, 0]', 'matrix': '[[3, 0], [0, 4]]',
+                       'row-matrix': '[[3, 0, 4]]', 'tensor': '[[[3, 0, 4]]]'},
+         ['abs', 'conj', 'double', 'norm', 'sum', 'first', 'transpose', None]),
+        ('[[1, 2, 3], [4, 5, 6]]', {'scalar': '21', 'vector': '[1, 2, 3]', 'transposed': '[[1, 4], [2, 5], [3, 6]]',
+                                    'wider': '[[1, 2, 3, 0], [4, 5, 6, 0]]', 'tensor': '[[[1, 2, 3], [4, 5, 6]]]'},
+         ['abs', 'conj', 'double', 'norm', 'sum', 'first', 'transpose', None]),
+        ('[[1, 2], [3, 4]]', {'scalar': '5', 'vector': '[1, 4]', 'taller': '[[1, 2], [3, 4], [0, 0]]', 'tensor': '[[[1, 2], [3, 4]]]'},
+         ['trace', 'norm', 'transpose', 'abs', None]),
+    ]
+    right = {   # (answer, transform) -> [(student, accepted?)]
+        ('[3, 0, 4]', 'norm'): [('[0, 5, 0]', True), ('[0, 6, 0]', False)],
+        ('[3, 0, 4]', 'sum'): [('[7, 0, 0]', True), ('[3, 0, 5]', False)],
+        ('[3, 0, 4]', 'first'): [('[3, 9, 9]', True), ('[4, 0, 4]', False)],
+        ('[3, 0, 4]', 'abs'): [('[-3, 0, 4*i]', True), ('[3, 0, 5]', False)],
+        ('[3, 0, 4]', 'conj'): [('[3, 0, 4]', True), ('[3, i, 4]', False)],
+        ('[3, 0, 4]', 'double'): [('[3, 0, 4]', True), ('[3, 0, 4.5]', False)],
+        ('[3, 0, 4]', 'transpose'): [('[3, 0, 4]', True), ('[4, 0, 3]', False)],
+        ('[3, 0, 4]', None): [('[3, 0, 4]', True), ('[3, 0, 4.5]', False)],
+        ('[[1, 2], [3, 4]]', 'trace'): [('[[5, 9], [9, 0]]', True), ('[[1, 2], [3, 5]]', False)],
+        ('[[1, 2], [3, 4]]', 'transpose'): [('[[1, 2], [3, 4]]', True), ('[[1, 3], [2, 4]]', False)],
+        ('[[1, 2, 3], [4, 5, 6]]', 'first'): [('[[1, 2, 3], [0, 0, 0]]', True), ('[[1, 2, 4], [4, 5, 6]]', False)],
+        ('[[1, 2, 3], [4, 5, 6]]', 'sum'): [('[[21, 0, 0], [0, 0, 0]]', True), ('[[1, 2, 3], [4, 5, 7]]', False)],
+    }
+    routes = ['explicit', 'class_default', 'subclass']
+    k = rng.randrange(1000)
+    for answer, wrong, transforms in answers:
+        for tname in transforms:
+            for kind, student in sorted(wrong.items()):
+                # all policies for the shape-collapsing transforms on two kinds of wrong shape, a rotating one otherwise
+                collapsing = tname in ('norm', 'trace', 'sum', 'first')
+                pols = POLICIES if (collapsing and kind in ('scalar', 'shorter', 'vector', 'transposed')) else \
+                    [POLICIES[(k + i) % len(POLICIES)] for i in range(per_combo)]
+                for pol in pols:
+                    k += 1
+                    for cname in (['equality', 'entry'] if k % 3 == 0 else ['equality']):
+                        cfg = {'transform': tname} if tname else {}
+                        if cname == 'entry':
+                            cfg = dict(cfg, entry_partial_credit=rng.choice(['proportional', 0.5, 0]))
+                        out.append({'grader': 'Matrix', 'cmp': {'name': cname, 'cfg': cfg}, 'params': [answer],
+                                    'tolerance': rng.choice(['0.01%', 0.001]), 'student': student, 'expect': {'kind': 'wrongshape'},
+                                    'exact': False, 'policy': pol, 'samples': rng.choice([1, 2]), 'route': routes[k % 3],
+                                    'max_array_dim': 3 if kind == 'tensor' else 2, 'shape_kind': kind})
+            for student, ok in right.get((answer, tname), []):
+                k += 1
+                out.append({'grader': 'Matrix', 'cmp': {'name': 'equality', 'cfg': {'transform': tname} if tname else {}},
+                            'params': [answer], 'tolerance': '0.01%', 'student': student,
+                            'expect': {'kind': 'member' if ok else 'nonmember'}, 'exact': False,
+                            'policy': POLICIES[k % len(POLICIES)], 'samples': 1, 'route': routes[k % 3]})
+    return out
+
+
 def corpus():
     """regression corpus, run first on every run: the witnesses of the five defects repaired in /repo (fix commits 2b5e28f,
     70bde6b, 8b36db6, c7560ea, 521d2fc) and their neighbours -- ordinary cases that must PASS"""
@@ -1378,7 +1501,7 @@ def all_specs(ctx):
     # obligation escalates the quick tier; "all differ" means no fingerprint has been recorded yet
     escalated = quick and (bool(ctx.get('broken')) or 0 < len(changed) < len(MIRRORED))
     mult = 10 if not quick else 3 if escalated else 1
-    specs = corpus() + shape_grid()
+    specs = corpus() + shape_grid() + transform_shape_stream(rng, 1 if quick and not escalated else 3)
     specs += gen_between(rng, 90 * mult)
     specs += gen_congruence(rng, 150 * mult)
     specs += gen_eigen(rng, 120 * mult)
